@@ -100,7 +100,126 @@ fn check(ctx: &mut Ctx, index: u64, label: &str, lists: &[Vec<u32>], expect_rang
     }
 }
 
+/// Zero-crossing hammer: persistent threads, released together (spinning on a generation counter) right at a counter value of
+/// 0 or just below the wrap, each taking a few serials per round. The skip-zero step is the one place where handing out a serial
+/// is more than a single atomic operation; a storm crosses it once, the hammer crosses it `rounds` times under full contention.
+/// Returns, per round, the serials taken by each thread.
+fn hammer(threads: usize, rounds: usize, per: usize, seed: u64) -> Vec<(u32, Vec<Vec<u32>>)> {
+    use std::sync::atomic::{AtomicUsize, Ordering};
+    let gen = Arc::new(AtomicUsize::new(0));
+    let done = Arc::new(AtomicUsize::new(0));
+    let results: Arc<std::sync::Mutex<Vec<Vec<Vec<u32>>>>> = Arc::new(std::sync::Mutex::new(vec![vec![Vec::new(); threads]; rounds]));
+    let mut hs = Vec::new();
+    for t in 0..threads {
+        let (gen, done, results) = (gen.clone(), done.clone(), results.clone());
+        hs.push(std::thread::spawn(move || {
+            let mut local: Vec<Vec<u32>> = Vec::with_capacity(rounds);
+            for r in 0..rounds {
+                let mut spins = 0u32;
+                while gen.load(Ordering::Acquire) <= r {
+                    spins += 1;
+                    if spins > 2_000 {
+                        std::thread::yield_now();
+                    } else {
+                        std::hint::spin_loop();
+                    }
+                }
+                let mut v = Vec::with_capacity(per);
+                for _ in 0..per {
+                    v.push(zbus::message::PrimaryHeader::new(zbus::message::Type::Signal, 0).serial_num().get());
+                }
+                local.push(v);
+                done.fetch_add(1, Ordering::AcqRel);
+            }
+            let mut res = results.lock().unwrap();
+            for (r, v) in local.into_iter().enumerate() {
+                res[r][t] = v;
+            }
+        }));
+    }
+    let mut rng = Rng::new(seed);
+    let mut starts = Vec::with_capacity(rounds);
+    for r in 0..rounds {
+        let start = match rng.below(4) {
+            0 => 0,
+            1 => u32::MAX,
+            2 => u32::MAX - rng.below(threads as u64) as u32,
+            _ => u32::MAX - rng.below((threads * per) as u64) as u32,
+        };
+        starts.push(start);
+        zbus::message::verif_set_next_serial(start);
+        gen.store(r + 1, Ordering::Release);
+        let mut spins = 0u32;
+        while done.load(Ordering::Acquire) < (r + 1) * threads {
+            spins += 1;
+            if spins > 2_000 {
+                std::thread::yield_now();
+            } else {
+                std::hint::spin_loop();
+            }
+        }
+    }
+    for h in hs {
+        h.join().unwrap();
+    }
+    let res = std::mem::take(&mut *results.lock().unwrap());
+    starts.into_iter().zip(res).collect()
+}
+
 pub fn run(ctx: &mut Ctx) {
+    // the zero-crossing hammer first
+    // (spinning threads: only two shards run it, with few threads, so that the machine is not oversubscribed by the gate itself)
+    let hammer_rounds = if ctx.thorough() { 400_000 } else { 30_000 };
+    if ctx.want(8_000_000_000) && ctx.args.shard < 2 {
+        let mut rng = ctx.rng(8_000_000_000);
+        let threads = *rng.pick(&[3usize, 4]);
+        let note = format!("zero-crossing hammer threads={threads} rounds={hammer_rounds}");
+        ctx.guarded(8_000_000_000, &note, || json!({"threads": threads, "rounds": hammer_rounds}), |ctx| {
+            let out = hammer(threads, hammer_rounds, 3, rng.next_u64());
+            ctx.count("evaluations", 1);
+            ctx.count("class:zero-crossing-hammer", 1);
+            let mut interleaved = 0u64;
+            for (r, (start, lists)) in out.iter().enumerate() {
+                ctx.count("zero_crossings_under_contention", 1);
+                let mut owner: HashMap<u32, usize> = HashMap::new();
+                let mut all: Vec<u32> = Vec::new();
+                for (t, l) in lists.iter().enumerate() {
+                    for s in l {
+                        all.push(*s);
+                        if *s == 0 {
+                            ctx.finding(8_000_000_000, "zero-serial", "-", "zero-crossing-hammer", json!({"round": r, "counter_start": start, "thread": t, "serials": lists}));
+                        }
+                        if let Some(prev) = owner.insert(*s, t) {
+                            ctx.finding(8_000_000_000, "duplicate-serial", "-", "zero-crossing-hammer", json!({"round": r, "counter_start": start, "serial": s, "threads": [prev, t], "serials": lists}));
+                        }
+                    }
+                }
+                // the round is the contiguous range from the start, zero skipped
+                let mut want: Vec<u32> = Vec::new();
+                let mut x = *start;
+                while want.len() < all.len() {
+                    if x != 0 {
+                        want.push(x);
+                    }
+                    x = x.wrapping_add(1);
+                }
+                all.sort();
+                want.sort();
+                if all != want {
+                    ctx.finding(8_000_000_000, "serial-range-differs", "-", "zero-crossing-hammer", json!({"round": r, "counter_start": start, "serials": lists}));
+                }
+                // how parallel was it: rounds in which no thread's serials are one contiguous block
+                if lists.iter().any(|l| l.windows(2).any(|w| w[1] != w[0].wrapping_add(1) && !(w[0] == u32::MAX && w[1] == 1))) {
+                    interleaved += 1;
+                }
+            }
+            ctx.count("hammer_rounds_with_interleaved_threads", interleaved);
+            if let Some((start, lists)) = out.iter().find(|(s, _)| *s == 0 || *s == u32::MAX) {
+                ctx.sample(json!({"zero_crossing_round": {"counter_start": start, "serials_per_thread": lists}, "rounds": out.len(), "rounds_with_interleaved_threads": interleaved}));
+            }
+            ctx.distinct(fnv("hammer") ^ interleaved);
+        });
+    }
     // Each shard process owns its own counter, so shards are independent runs.
     let rounds = ctx.budget(56, 1120);
     for r in 0..rounds {
